@@ -31,7 +31,7 @@ package xreq
 //@   ensures name == protocol.OptionReadQLen ==> (isnil(result) <==> is_int(value) && 0 <= int_of(value))
 //@   ensures name == protocol.OptionReadQLen && !isnil(result) ==> result == protocol.ErrBadValue
 //@   ensures name == protocol.OptionReadQLen && isnil(result) ==> s.recvQLen == int_of(value)
-//@   ensures !isnil(result) ==> unchanged(s.bestEffort, s.recvExpire, s.recvQLen, s.sendExpire, s.sendQLen)
+//@   ensures !isnil(result) && (name == protocol.OptionRecvDeadline || name == protocol.OptionSendDeadline || name == protocol.OptionBestEffort || name == protocol.OptionWriteQLen || name == protocol.OptionReadQLen) ==> unchanged(s.bestEffort, s.recvExpire, s.recvQLen, s.sendExpire, s.sendQLen)
 //@
 //@ func (*socket).GetOption
 //@   ensures option != protocol.OptionRecvDeadline && option != protocol.OptionSendDeadline && option != protocol.OptionBestEffort && option != protocol.OptionWriteQLen && option != protocol.OptionReadQLen && option != protocol.OptionRaw ==> result1 == protocol.ErrBadOption && isnil(result0)
